@@ -56,9 +56,20 @@ func enterNetlab() bool {
 		fmt.Fprintf(os.Stderr, "netlab: cannot build sx from %s: %v\n%s\n", repo, err, out)
 		os.Exit(3)
 	}
+	// the same binary with the Go race detector compiled in (sxOpt.race: the reply-flood runs over several port
+	// chunks, where goroutines of one engine run meet those of the next)
+	rbin := filepath.Join(work, "sx-e2e-race")
+	os.Remove(rbin)
+	rb := exec.Command("go", "build", "-race", "-o", rbin, ".")
+	rb.Dir = repo
+	rb.Env = b.Env
+	if out, err := rb.CombinedOutput(); err != nil {
+		fmt.Fprintf(os.Stderr, "netlab: no race-enabled sx (%v): %s\n", err, out)
+		rbin = ""
+	}
 	self, _ := os.Executable()
 	c := exec.Command("unshare", append([]string{"-n", self}, os.Args[1:]...)...)
-	c.Env = append(os.Environ(), "SXNET_INNER=1", "SX_BIN="+bin)
+	c.Env = append(os.Environ(), "SXNET_INNER=1", "SX_BIN="+bin, "SX_BIN_RACE="+rbin)
 	c.Stdout, c.Stderr, c.Stdin = os.Stdout, os.Stderr, nil
 	err := c.Run()
 	os.Remove(bin)
@@ -373,7 +384,12 @@ func startSX(oneCPU bool, stdin []byte, args ...string) (*sxProc, error) {
 type sxOpt struct {
 	nofile     int
 	slowStderr time.Duration
+	stdoutPath string // stdout is this file (e.g. /dev/full: every write fails with ENOSPC)
+	race       bool // the race-enabled build (exit status 66 and a report on stderr at the first data race)
 }
+
+// sxRaceRuns: while set, every sx process is the race-enabled build (cases run one after the other)
+var sxRaceRuns bool
 
 // slowWriter: the far end of a pipe that lags (the first `n` reads only, so that every run ends)
 type slowWriter struct {
@@ -400,6 +416,9 @@ func runSXOpt(o sxOpt, stdin []byte, timeout time.Duration, args ...string) sxRu
 
 func startSXOpt(o sxOpt, oneCPU bool, stdin []byte, args ...string) (*sxProc, error) {
 	bin := os.Getenv("SX_BIN")
+	if rb := os.Getenv("SX_BIN_RACE"); (o.race || sxRaceRuns) && rb != "" {
+		bin = rb
+	}
 	if o.nofile > 0 {
 		// the shell execs the program: same process, so signals reach sx itself
 		args = append([]string{"-c", fmt.Sprintf(`ulimit -n %d; exec "$0" "$@"`, o.nofile), bin}, args...)
@@ -426,7 +445,13 @@ func startSXOpt(o sxOpt, oneCPU bool, stdin []byte, args ...string) (*sxProc, er
 	if o.slowStderr > 0 {
 		p.cmd.Stderr = &slowWriter{w: &p.se, pause: o.slowStderr, n: 12}
 	}
-	p.cmd.Env = append(os.Environ(), hostileEnv()...)
+	if o.stdoutPath != "" {
+		if f, err := os.OpenFile(o.stdoutPath, os.O_WRONLY, 0); err == nil {
+			p.cmd.Stdout = f
+			defer f.Close()
+		}
+	}
+	p.cmd.Env = append(append(os.Environ(), hostileEnv()...), "GORACE=halt_on_error=1 exitcode=66")
 	if stdin != nil {
 		p.cmd.Stdin = bytes.NewReader(stdin)
 	}
